@@ -73,6 +73,8 @@ def cases(tier, seed):
             out.append({"name": "fault.sweep/%s/%s" % (site, direction), "kind": "sweep", "site": site, "dir": direction, "cap": cap})
     out.append({"name": "fault.sweep-worker/poll_fn", "kind": "wsweep", "cap": None})
     out.append({"name": "fault.blocked-submit/count_fn", "kind": "blockedcount"})
+    for stack in ("flat_map", "map>flat_map>throttle", "flat_map>throttle", "flat_map>retry", "flat_map>timeout"):
+        out.append({"name": "fault.nonfuture-error_fn/%s" % stack, "kind": "nonfuture", "stack": stack})
     for seq in ("0,2,raise", "1,3,raise", "0,0,2,raise", "2,raise,raise"):
         out.append({"name": "fault.count-sequence/%s" % seq, "kind": "countseq", "seq": seq})
     for first in ("fail", "complete"):
@@ -675,6 +677,76 @@ def run_blockedcount(case, res):
             end(ctx)
 
 
+def run_nonfuture(case, res):
+    """A flat_map stage whose error function hands back a plain value instead of a future (error_fn=str): that
+    submission fails with TypeError; no worker thread dies, later submissions are served."""
+    ME = instr.ME
+    for base in ("inline", "manual"):
+        begin("vt")
+        ctx = Ctx()
+        try:
+            tap()
+            n0 = len(instr.TRACKED)
+            me = ManualExecutor("me", auto=run_inline if base == "inline" else None)
+            ctx.own(me)
+            cur = me
+            for t in case["stack"].split(">"):
+                if t == "flat_map":
+                    cur = ME.Executors.with_flat_map(cur, lambda x: ME.futures.f_return(("fm", x)), error_fn=lambda ex: "not a future")
+                elif t == "map":
+                    cur = ME.Executors.with_map(cur, lambda x: x)
+                elif t == "throttle":
+                    cur = ME.Executors.with_throttle(cur, 2)
+                elif t == "retry":
+                    cur = ME.Executors.with_retry(cur, max_attempts=1)
+                elif t == "timeout":
+                    cur = ME.Executors.with_timeout(cur, 500.0)
+                ctx.own(cur)
+            threads = [t for t in instr.TRACKED[n0:]]
+
+            def bad():
+                raise UserErrorA("callable")
+            futs = []
+            escaped = []
+            for i in range(3):
+                try:
+                    futs.append(cur.submit(bad))
+                except BaseException as e:
+                    escaped.append(e)
+                instr.advance(0.3)
+                for k in me.pending():
+                    try:
+                        me.run(k)
+                    except BaseException as e:
+                        escaped.append(e)
+                instr.advance(0.3)
+            probe = cur.submit(lambda: "ok")
+            instr.advance(0.3)
+            for k in me.pending():
+                me.run(k)
+            instr.advance(5.0)
+            res.execs += 1
+            check_common(res)
+            label = "%s over %s delegate" % (case["stack"], base)
+            for e in escaped:
+                res.violation("exception-escaped/%s" % type(e).__name__, "%s: %r escaped from submit() / the delegate's completing thread" % (label, e))
+            for i, f in enumerate(futs):
+                o = outcome(f)
+                if o[0] == "pending":
+                    res.violation("submission-stuck/nonfuture-error_fn", "%s: submission %d (callable failed, error_fn returned a non-future) never completes"
+                                  % (label, i))
+                elif not (o[0] == "exc" and isinstance(o[1], TypeError)):
+                    res.violation("wrong-outcome/nonfuture-error_fn", "%s: submission %d is %s, expected TypeError" % (label, i, outcome_repr(o)))
+            if outcome(probe) != ("value", ("fm", "ok")) and outcome(probe)[0] != "value":
+                res.violation("probe-stuck/nonfuture-error_fn", "%s: a later, healthy submission is %s" % (label, outcome_repr(outcome(probe))))
+            dead = [t.vf_role for t in threads if not t.is_alive() or t.vf_finished]
+            if dead:
+                res.violation("thread-died/%s" % dead[0].split("-")[0], "%s: worker thread(s) %s ended" % (label, dead))
+            res.key("nonfuture", case["stack"], base)
+        finally:
+            end(ctx)
+
+
 def run_countseq(case, res):
     """The count callable has changed its answer since construction (e.g. opened a paused executor) and then starts to
     raise: the fault is logged, the executor goes on with the last answer it got and serves what is submitted."""
@@ -870,6 +942,8 @@ class QScenario(object):
 
 def run_case(case, res):
     harness.JUDGE_CALLBACK_ESCAPES[0] = True
+    if case["kind"] == "nonfuture":
+        return run_nonfuture(case, res)
     if case["kind"] == "countseq":
         return run_countseq(case, res)
     if case["kind"] == "irace":
